@@ -155,6 +155,9 @@ class Case:
         self.srcdir = srcdir
         self.jobs = jobs
         self.iseed = None
+        self.classes = None         # restrict the I/O sweep to these call classes (None: all)
+        self.kinds = None           # fixed fault kinds for this invocation (None: the tier's choice)
+        self.alloc_limit = None     # cap for the allocation sweep of this invocation
 
 
 def gen_cases(ctx, plain, root, seed):
@@ -192,6 +195,29 @@ def gen_cases(ctx, plain, root, seed):
     cases.append(Case("gen-export-513", "gensquashfs",
                       [T["gensquashfs"], "-q", "-f", "-c", "gzip", "-j", "1", "-e", "-F", pf2, "@OUT@"],
                       "out.sqfs", "file", None, packer=True, aux=(pf2,)))
+    # G5: every table of the image spans several meta data blocks (directory, inode, fragment, export, ID, xattr
+    # key/value and xattr ID tables), so every "for each block" flush loop has non-last iterations that can fail
+    big = os.path.join(root, "big")
+    os.makedirs(big)
+    lines = []
+    for i in range(700):
+        lines.append("dir /directory_with_a_rather_long_name_to_fill_the_table_%05d 0755 %d %d\n" % (i, 1000 + i, 5000 + i))
+    for i in range(520):
+        open(os.path.join(big, "f%04d" % i), "wb").write(rnd.randbytes(2100))    # one fragment block each at -b 4096
+        lines.append("file /f%04d 0644 %d %d f%04d\n" % (i, 10000 + i, 20000 + i, i))
+    for i in range(600):
+        lines.append("nod /n%04d 0600 %d %d c 1 2\n" % (i, 30000 + i, 40000 + i))
+    pf3 = os.path.join(root, "packbig.txt")
+    open(pf3, "w").write("".join(lines))
+    xf = os.path.join(root, "xattrbig.txt")
+    open(xf, "w").write("".join("# file: /n%04d\nuser.key%04d=value-%04d-%s\n" % (i, i, i, "x" * (i % 7)) for i in range(600)))
+    cbig = Case("gen-bigtables", "gensquashfs",
+                [T["gensquashfs"], "-q", "-f", "-b", str(bs), "-c", "gzip", "-j", "1", "-e", "-F", pf3, "-A", xf, "-D", big, "@OUT@"],
+                "out.sqfs", "file", None, packer=True, packdir=True, relative=False, aux=(pf3, xf), srcdir=None)
+    cbig.classes = ("write", "trunc")
+    cbig.kinds = ["enospc"]
+    cbig.alloc_limit = 40
+    cases.append(cbig)
     # T1 / T2: tar2sqfs
     t0 = os.path.join(root, "in0.tar")
     make_tar(rnd, t0, bs)
@@ -922,13 +948,13 @@ def io_sweep(ctx, case, shim, drv, root, kinds_for, stats, only=None):
             tie_ok = False
     # ---- jobs
     jobs = []
-    for cls in IO_CLASSES:
+    for cls in (case.classes or IO_CLASSES):
         for k in range(1, counts.get(cls, 0) + 1):
-            for kind in kinds_for(case, cls, k):
+            for kind in (case.kinds or kinds_for(case, cls, k)):
                 jobs.append((cls, k, kind))
     if only is not None:
         jobs = [only]
-    elif ctx.tier != "quick":
+    elif ctx.tier != "quick" and case.classes is None:
         # close(): outside the property's quantifier (sqfs_native_file_close returns void); observed, and only
         # crashes / hangs / a changed output would be reported
         nclose = sum(1 for e in base["log"] if e["cls"] == "close")
@@ -1334,8 +1360,11 @@ def run(ctx):
             alloc_sweep(ctx, case, asan, d, stats, only=rep["k"], func=rep.get("func"))
         elif k == "comp":
             comp_sweep(ctx, case, shim, d, 0, stats, only=rep["k"])
-        else:
+        elif k == "trunc":
             trunc_sweep(ctx, plain, d, case, stats, 30)
+        else:
+            # fault-free / script-derivation / trace disagreements: the whole sweep of that invocation
+            io_sweep(ctx, case, shim, drv, d, kinds_for, stats)
         fill_coverage(ctx, stats, cases)
         return
 
@@ -1371,7 +1400,7 @@ def sweep_cases(ctx, cases, plain, shim, asan, drv, root, kinds_for, stats, quic
         if r is None:
             continue
         base, sb, counts, ncomp = r
-        if case.packer and ncomp and first and (case.name in ("gen-dir-rel", "gen-packfile") or not quick):
+        if case.packer and ncomp and first and case.classes is None and (case.name in ("gen-dir-rel", "gen-packfile") or not quick):
             d = os.path.join(root, "comp-" + case.name)
             os.makedirs(d)
             comp_sweep(ctx, case, shim, d, ncomp, stats)
@@ -1388,7 +1417,7 @@ def sweep_cases(ctx, cases, plain, shim, asan, drv, root, kinds_for, stats, quic
                 if not quick:
                     alloc_sweep(ctx, case, asan, d, stats, limit=600)
         else:
-            alloc_sweep(ctx, case, asan, d, stats, limit=260 if quick else None)
+            alloc_sweep(ctx, case, asan, d, stats, limit=case.alloc_limit or (260 if quick else None))
         shutil.rmtree(d, ignore_errors=True)
     ctx.log("allocation sweep done (%d runs)" % stats["alloc_runs"])
     for case in cases:
@@ -1409,7 +1438,7 @@ def fill_coverage(ctx, stats, cases):
                    "every position k of every I/O call class (open, write/pwrite, read/pread, ftruncate, fsync) of the logged "
                    "fault-free run x the fault kinds of the tier; every (quick: up to 260 sampled) allocation made by project code "
                    "returns NULL once (ASan+UBSan build); every deflate call fails once (packers, gzip); truncated archives/images. "
-                   "non-trivial = the injected fault was reached" % (len(cases), ", ".join(c.name for c in cases), ctx.seed))
+                   "non-trivial = the injected fault was reached" % (len(cases), ", ".join(sorted(set(c.name for c in cases))), ctx.seed))
     cov["io_part"] = dict(runs=stats["io_runs"], fault_reached=stats["io_reached"], model_vs_tool_runs=stats["tie_runs"],
                           model_vs_tool_disagreements=stats["tie_diffs"], calls_per_case=stats["calls"],
                           violations=stats["io_violations"])
